@@ -39,18 +39,18 @@ package geom
 //@   ensures e.nonEmpty ==> same(result0, e.min) && same(result1, e.max)
 
 //@ func Envelope.ExpandToIncludeXY
-//@   requires EnvOK(e) && XYFin(xy)
-//@   ensures EnvOK(result) && InEnv(result, xy)
-//@   ensures !e.nonEmpty ==> result.min == xy && result.max == xy
-//@   ensures e.nonEmpty ==> EnvCovers(result, e)
-//@   ensures e.nonEmpty ==> (result.min.X == xy.X || result.min.X == e.min.X) && (result.min.Y == xy.Y || result.min.Y == e.min.Y) && (result.max.X == xy.X || result.max.X == e.max.X) && (result.max.Y == xy.Y || result.max.Y == e.max.Y)
+//@   ensures result.nonEmpty
+//@   ensures !e.nonEmpty ==> same(result.min, xy) && same(result.max, xy)
+//@   ensures EnvOK(e) && XYFin(xy) ==> EnvOK(result) && InEnv(result, xy)
+//@   ensures EnvOK(e) && XYFin(xy) && e.nonEmpty ==> EnvCovers(result, e)
+//@   ensures EnvOK(e) && XYFin(xy) && e.nonEmpty ==> (result.min.X == xy.X || result.min.X == e.min.X) && (result.min.Y == xy.Y || result.min.Y == e.min.Y) && (result.max.X == xy.X || result.max.X == e.max.X) && (result.max.Y == xy.Y || result.max.Y == e.max.Y)
 
 //@ func Envelope.ExpandToIncludeEnvelope
-//@   requires EnvOK(e) && EnvOK(o)
-//@   ensures EnvOK(result)
+//@   ensures EnvOK(e) && EnvOK(o) ==> EnvOK(result)
 //@   ensures !e.nonEmpty ==> same(result, o)
 //@   ensures e.nonEmpty && !o.nonEmpty ==> same(result, e)
-//@   ensures e.nonEmpty && o.nonEmpty ==> EnvJoin(result, e, o) && EnvCovers(result, e) && EnvCovers(result, o)
+//@   ensures result.nonEmpty <==> (e.nonEmpty || o.nonEmpty)
+//@   ensures EnvOK(e) && EnvOK(o) && e.nonEmpty && o.nonEmpty ==> EnvJoin(result, e, o) && EnvCovers(result, e) && EnvCovers(result, o)
 
 //@ func Envelope.Contains
 //@   requires EnvOK(e)
@@ -140,33 +140,32 @@ package geom
 //@ func Sequence.Envelope
 //@   mode order
 //@   split s.ctype 0 1 2 3
-//@   requires SeqInv(s) && SeqFin(s)
-//@   ensures EnvOK(result) && (result.nonEmpty <==> len(s.floats) > 0)
-//@   ensures result.nonEmpty ==> SeqInEnv(result, s) && SeqTouches(result, s)
+//@   ensures result.nonEmpty <==> len(s.floats) > 0
+//@   ensures SeqFin(s) ==> EnvOK(result) && (result.nonEmpty ==> SeqInEnv(result, s) && SeqTouches(result, s))
 //@   loop 0 invariant stride == Dim(s.ctype) && stride <= i && i <= len(s.floats) && i % stride == 0 && len(s.floats) > 0
-//@   loop 0 invariant XYFin(lower) && XYFin(upper) && lower.X <= upper.X && lower.Y <= upper.Y
-//@   loop 0 invariant forall p :: 0 <= p && p*stride < i ==> lower.X <= PX(s, p) && PX(s, p) <= upper.X && lower.Y <= PY(s, p) && PY(s, p) <= upper.Y
-//@   loop 0 invariant (exists p :: 0 <= p && p*stride < i && lower.X == PX(s, p)) && (exists p :: 0 <= p && p*stride < i && upper.X == PX(s, p)) && (exists p :: 0 <= p && p*stride < i && lower.Y == PY(s, p)) && (exists p :: 0 <= p && p*stride < i && upper.Y == PY(s, p))
+//@   loop 0 invariant SeqFin(s) ==> XYFin(lower) && XYFin(upper) && lower.X <= upper.X && lower.Y <= upper.Y
+//@   loop 0 invariant SeqFin(s) ==> forall p :: 0 <= p && p*stride < i ==> lower.X <= PX(s, p) && PX(s, p) <= upper.X && lower.Y <= PY(s, p) && PY(s, p) <= upper.Y
+//@   loop 0 invariant SeqFin(s) ==> (exists p :: 0 <= p && p*stride < i && lower.X == PX(s, p)) && (exists p :: 0 <= p && p*stride < i && upper.X == PX(s, p)) && (exists p :: 0 <= p && p*stride < i && lower.Y == PY(s, p)) && (exists p :: 0 <= p && p*stride < i && upper.Y == PY(s, p))
 
 //@ func Point.Envelope
-//@   requires p.full ==> XYFin(p.coords.XY)
-//@   ensures EnvOK(result) && (result.nonEmpty <==> p.full)
-//@   ensures p.full ==> result.min == p.coords.XY && result.max == p.coords.XY
+//@   ensures result.nonEmpty <==> p.full
+//@   ensures (p.full ==> XYFin(p.coords.XY)) ==> EnvOK(result)
+//@   ensures p.full ==> same(result.min, p.coords.XY) && same(result.max, p.coords.XY)
 
 //@ func LineString.Envelope
-//@   requires SeqInv(s.seq) && SeqFin(s.seq)
-//@   ensures EnvOK(result) && (result.nonEmpty <==> len(s.seq.floats) > 0)
-//@   ensures result.nonEmpty ==> SeqInEnv(result, s.seq) && SeqTouches(result, s.seq)
+//@   ensures result.nonEmpty <==> len(s.seq.floats) > 0
+//@   ensures SeqFin(s.seq) ==> EnvOK(result) && (result.nonEmpty ==> SeqInEnv(result, s.seq) && SeqTouches(result, s.seq))
 
 //@ pred PtFin(p) = p.full ==> XYFin(p.coords.XY)
+//@ pred MPFin(m) = forall k :: 0 <= k && k < len(m.points) ==> PtFin(m.points[k])
 //@ func MultiPoint.Envelope
 //@   mode order
-//@   requires forall k :: 0 <= k && k < len(m.points) ==> PtFin(m.points[k])
-//@   ensures EnvOK(result)
-//@   ensures result.nonEmpty <==> (exists k :: 0 <= k && k < len(m.points) && m.points[k].full)
-//@   ensures forall k :: 0 <= k && k < len(m.points) && m.points[k].full ==> InEnv(result, m.points[k].coords.XY)
-//@   ensures result.nonEmpty ==> (exists k :: 0 <= k && k < len(m.points) && m.points[k].full && result.min.X == m.points[k].coords.X) && (exists k :: 0 <= k && k < len(m.points) && m.points[k].full && result.max.X == m.points[k].coords.X) && (exists k :: 0 <= k && k < len(m.points) && m.points[k].full && result.min.Y == m.points[k].coords.Y) && (exists k :: 0 <= k && k < len(m.points) && m.points[k].full && result.max.Y == m.points[k].coords.Y)
-//@   loop 0 invariant -1 <= rangeindex && rangeindex < len(m.points) && EnvOK(env)
-//@   loop 0 invariant env.nonEmpty <==> (exists k :: 0 <= k && k <= rangeindex && m.points[k].full)
-//@   loop 0 invariant forall k :: 0 <= k && k <= rangeindex && m.points[k].full ==> InEnv(env, m.points[k].coords.XY)
-//@   loop 0 invariant env.nonEmpty ==> (exists k :: 0 <= k && k <= rangeindex && m.points[k].full && env.min.X == m.points[k].coords.X) && (exists k :: 0 <= k && k <= rangeindex && m.points[k].full && env.max.X == m.points[k].coords.X) && (exists k :: 0 <= k && k <= rangeindex && m.points[k].full && env.min.Y == m.points[k].coords.Y) && (exists k :: 0 <= k && k <= rangeindex && m.points[k].full && env.max.Y == m.points[k].coords.Y)
+//@   ensures MPFin(m) ==> (EnvOK(result))
+//@   ensures MPFin(m) ==> (result.nonEmpty <==> (exists k :: 0 <= k && k < len(m.points) && m.points[k].full))
+//@   ensures MPFin(m) ==> (forall k :: 0 <= k && k < len(m.points) && m.points[k].full ==> InEnv(result, m.points[k].coords.XY))
+//@   ensures MPFin(m) ==> (result.nonEmpty ==> (exists k :: 0 <= k && k < len(m.points) && m.points[k].full && result.min.X == m.points[k].coords.X) && (exists k :: 0 <= k && k < len(m.points) && m.points[k].full && result.max.X == m.points[k].coords.X) && (exists k :: 0 <= k && k < len(m.points) && m.points[k].full && result.min.Y == m.points[k].coords.Y) && (exists k :: 0 <= k && k < len(m.points) && m.points[k].full && result.max.Y == m.points[k].coords.Y))
+//@   loop 0 invariant -1 <= rangeindex && rangeindex < len(m.points)
+//@   loop 0 invariant MPFin(m) ==> EnvOK(env)
+//@   loop 0 invariant MPFin(m) ==> (env.nonEmpty <==> (exists k :: 0 <= k && k <= rangeindex && m.points[k].full))
+//@   loop 0 invariant MPFin(m) ==> (forall k :: 0 <= k && k <= rangeindex && m.points[k].full ==> InEnv(env, m.points[k].coords.XY))
+//@   loop 0 invariant MPFin(m) ==> (env.nonEmpty ==> (exists k :: 0 <= k && k <= rangeindex && m.points[k].full && env.min.X == m.points[k].coords.X) && (exists k :: 0 <= k && k <= rangeindex && m.points[k].full && env.max.X == m.points[k].coords.X) && (exists k :: 0 <= k && k <= rangeindex && m.points[k].full && env.min.Y == m.points[k].coords.Y) && (exists k :: 0 <= k && k <= rangeindex && m.points[k].full && env.max.Y == m.points[k].coords.Y))
